@@ -52,7 +52,7 @@ REQUIRED_REACH = ["kwarg:updated-in-place", "kwarg:overrides-default", "basis:ce
                   "list:len1", "list:len2", "list:len3", "list:cell-partition", "list:two-sides", "list:boundary+interior",
                   "list:cell+facet", "list:overlap", "list:same-object-twice", "list:trial!=test", "list:asm-all-three",
                   "list:all-pairs", "list:coo-sum-0tensor", "list:coo-sum-1tensor", "list:coo-sum-2tensor", "list:mixed-meshes",
-                  "list:idx-coefficient", "list:dofvector-parameter", "more-than-2^16-dofs", "more-than-2^16-dofs:test-above-trial-below",
+                  "list:idx-coefficient", "list:dofvector-parameter", "more-than-2^16-dofs", "trilinear:test-dofs-unrelated-to-trial-dofs", "more-than-2^16-dofs:test-above-trial-below",
                   "more-than-2^16-dofs:trial-above-test-below", "more-than-2^16-dofs:both-above"] + ["list:repeated-domain:" + _b for _b in
                                                                          ("cell", "cell-subset", "facet-boundary", "facet-subset",
                                                                           "facet-interior-side1", "interior-side0", "interior-side1")]
@@ -404,6 +404,17 @@ def one_case(ctx, k, kind):
         has_imag = np.abs(Aref.imag).max() > 1e-12 * scale
         ctx.check("complex-dtype", np.iscomplexobj(Ad) and (np.abs(Ad.imag).max() > 0 or not has_imag),
                   mech="complex-lost", **tag)
+        # s = J for a complex-valued integrand also when the Functional was declared without a dtype (the scalar is
+        # whatever the integrand sums to; its elemental contributions say the same)
+        import warnings as _w
+        with _w.catch_warnings():
+            _w.simplefilter("ignore")
+            s_plain = skfem.Functional(fun).assemble(ub, cu=cu, cv=cv, **dict(kwargs))
+            s_el = skfem.Functional(fun).elemental(ub, cu=cu, cv=cv, **dict(kwargs))
+        ctx.close("complex-dtype", complex(s_plain), complex(s), rtol=1e-12, scale=abs(complex(s)) + big, mech="complex-functional-without-dtype",
+                  **tag)
+        ctx.close("complex-dtype", complex(np.sum(np.asarray(s_el))), complex(s), rtol=1e-10, scale=abs(complex(s)) + big,
+                  mech="complex-functional-elemental-sum", **tag)
 
     # kwarg spellings: DOF vector == interpolate() == raw array, bit-identical
     if uses_field and ncomp_u == 1:
@@ -468,6 +479,11 @@ def trilinear(ctx, k):
              "quad": ("ElementQuad2", "ElementQuad1", "ElementQuad0"),
              "line": ("ElementLineP2", "ElementLineP1", "ElementLineP0"),
              "tet": ("ElementTetP2", "ElementTetP1", "ElementTetP0")}[kind]
+    if (k // 4) % 2 == 1:
+        # trial and test spaces whose leading local DOFs are different global numbers (P2 and P1 share the vertex numbers)
+        names = {"tri": ("ElementTriP2", "ElementTriCR", "ElementTriP1"), "quad": ("ElementQuad1", "ElementQuad0", "ElementQuad2"),
+                 "line": ("ElementLineP1", "ElementLineP0", "ElementLineP2"), "tet": ("ElementTetP1", "ElementTetCR", "ElementTetP2")}[kind]
+        ctx.reached("trilinear:test-dofs-unrelated-to-trial-dofs")
     eu, evv, ew = (EL.by_name(n).make() for n in names)
     ub = skfem.CellBasis(mesh, eu, intorder=4)
     vb, wb = ub.with_element(evv), ub.with_element(ew)
